@@ -136,7 +136,7 @@ def gen_cases(tier, seed):
     # the verifying side: URLs of two signers checked under both certificates by several threads at once (yields injected), and verification
     # histories that contain a certificate that cannot be read
     for k in range(3 if tier == "quick" else 20):
-        cases.append({"id": "verify-threads-%d" % k, "sig": ["verify-threads", k], "kind": "verify-threads", "k": k, "rounds": 12 if tier == "quick" else 60})
+        cases.append({"id": "verify-threads-%d" % k, "sig": ["verify-threads", k], "kind": "verify-threads", "own_worker": True, "all_envs": True, "k": k, "rounds": 12 if tier == "quick" else 60})
     for k in range(2 if tier == "quick" else 10):
         cases.append({"id": "verify-history-bad-certificate-%d" % k, "sig": ["verify-history", k], "kind": "verify-history", "k": k})
     return cases
@@ -567,7 +567,7 @@ def run_case(case, ctx):
                         verdict(first, first)
                         verdict(second, first)
                 return run
-            res, errs, stats = interleave.run_threads([loop("sp", "sp2"), loop("sp2", "sp"), loop("sp", "sp2")], "%s/%s" % (ctx.seed, case["id"]), p=0.2)
+            res, errs, stats = interleave.run_threads_regimes([loop("sp", "sp2"), loop("sp2", "sp"), loop("sp", "sp2")], "%s/%s" % (ctx.seed, case["id"]))
             counters["yields_injected"] = stats["yields_injected"]
             for o1, o2 in (("sp", "sp"), ("sp2", "sp2"), ("sp", "sp2"), ("sp2", "sp")):      # and when everything is quiet again
                 verdict(o1, o2)
